@@ -8,6 +8,12 @@ TRUST = ["Eigen dense self-adjoint eigen-solver, LU and MatrixFunctions::exp use
          "held on the executions observed only; nothing is claimed for inputs/schedules that were not run"]
 
 VH = {
+    "C04": dict(drivers=[dict(driver="presets", flavours=P2, timeout=60)],
+                floor=dict(quick=1200, thorough=24000),
+                rule="cases = schedule entry (every LatticePresets::add* overload/variant alone, every Term factory alone through addTerm, raw user terms of 2/4/6 operators by class, "
+                     "sums of 2-6 ingredients, SU(2) commutator cases) x random lattice (1-3 sites, 1-3 orbitals, 1-3 spins, random labels, optional spin-major order) x parameter class "
+                     "{generic, integers, negative, zero-mix} x {real,complex build}; oracle = doc comments of LatticePresets.h transcribed to Jordan-Wigner matrices; "
+                     "non-trivial = N >= 2 and (documented operator non-zero, or the input contains a non-zero-amplitude user term that vanishes by the Pauli principle); distinct = canonical lattice + call sequence"),
     "C08": dict(drivers=[dict(driver="partinv", flavours=P2, timeout=240)],
                 floor=dict(quick=30, thorough=300),
                 rule="cases = one generated model computed under 2-4 partitions (default analysis, symmetries ignored, 1-2 custom sets of confirmed-conserved integer-linear integrals of motion); all pipelines run in full; "
@@ -80,10 +86,14 @@ VH = {
 }
 
 
-HOOK_COMMITS = []
+HOOK_COMMITS = ["541145e"]
 NOT_YET = {}
 
 INFO = {
+    "C04": dict(technique="runtime oracle monitor: Hamiltonian built by the library (IndexHamiltonian monomials and HamiltonianPart matrix, symmetries ignored) vs the documented operator written as dense Jordan-Wigner matrices",
+                level_text="Every LatticePresets function and overload, every Term factory and raw user terms of 2, 4 and 6 operators (incl. Pauli-vanishing, number-non-conserving and mutually cancelling ones) are applied alone and in random sums to generated lattices; the resulting operator is compared element by element with an independent transcription of the header documentation, its Hermiticity and (Kanamori U'=U-2J, spin-spin exchange) its commutation with total S+- are monitored; held on what was run.",
+                level_note="Trusts the harness's Jordan-Wigner construction and IndexClassification::getIndex (subject of another property); N <= 6 (8 for two equal multi-orbital sites) quick / 8 thorough.",
+                design_ref="DESIGN.md section 3, C04"),
     "C08": dict(technique="runtime differential monitor: the same model under several accepted symmetry partitions, all observables compared pairwise",
                 level_text="The full pipeline of the real library is run under default / ignored / custom partitions and every observable is compared pairwise with tolerances derived from the documented reductions in each run's own eigenbasis; held on what was run.",
                 level_note="Custom partitions are restricted to integer-linear integrals of motion confirmed conserved by the harness (hostile candidates are C07's subject); dropped-term effects in the susceptibility are C14's subject and are allowed literally here.",
